@@ -1895,7 +1895,10 @@ def r3_groups(rng, gid0, inputs, quick):
         # (3) nbWorkers=1 (4-entry jobs table), five e_continue calls of exactly one section, an accepted mid-frame
         # ZSTD_CCtx_setParameter(compressionLevel), e_end: huge output chunks vs 1 byte per call
         L.append("X mtset 1 5 300000 9 1")
-        n += 1
+        # one section only: the round buffer is free, so the call after the update prepares its job at once (an update that reaches
+        # the jobs one call late shows in the level of that job; with more sections the input range is usually still busy)
+        L.append("X mtset 1 1 300000 9 64")
+        n += 2
     g.r3_expected = n
     g.variants = []
     return [g]
@@ -1993,7 +1996,7 @@ def r3_lockstep(ctx, model, results, report):
     for g, res in results:
         if not getattr(g, "r3", False):
             continue
-        cur, jl, xs = None, {}, None
+        cur, jl = None, {}
         for l in res[1].split("\n"):
             t = l.split(" ")
             if t[0] == "X" and len(t) >= 3 and t[1] == "mtpass":
@@ -2002,25 +2005,26 @@ def r3_lockstep(ctx, model, results, report):
             elif t[0] == "J" and cur is not None and len(t) >= 7:
                 jl[cur] += [int(t[2]), int(t[6])]
             elif t[0] == "X" and len(t) >= 7 and t[1] == "mtset":
-                xs = [int(x) for x in t[2:7]]
                 cur = None
+                if 0 not in jl or 1 not in jl:
+                    continue
+                nbw, nsec, tail, lvl, small = [int(x) for x in t[2:7]]
+                ops = [0, sec, 0] * nsec + [1, lvl, 0] + [0, tail, 2]
+                pr = model.run([(18, [sec, -1] + ops), (18, [sec, nsec - 1] + ops)])
+                relabel = lambda v: [x if k % 2 == 0 else (1 if x == 0 else x) for k, x in enumerate(v)]      # identity 0 = the initial level 1
+                free, full = relabel(pr[0]), relabel(pr[1])
+                ctx.cov["traces_validated_against_impl"] += 2
+                ok0, ok1 = jl[0] == free, jl[1] in (free, full)
+                ctx.count(("lockstep-mtparams", nsec, jl[1] == full, ok0 and ok1), nontrivial=True)
+                if not (ok0 and ok1):
+                    report("lockstep", g, dict(model="MtParams.prun (size, level of every posted job)", line=l,
+                                               predicted=dict(never_full=free, full_at_last_section=full),
+                                               observed=dict(big_output=jl[0], small_output=jl[1])))
+                else:
+                    n_ok += 2
+                jl = {}
             elif t[0] == "X":
                 cur = None
-        if xs is None or 0 not in jl or 1 not in jl:
-            continue
-        nbw, nsec, tail, lvl, small = xs
-        ops = [0, sec, 0] * nsec + [1, lvl, 0] + [0, tail, 2]
-        pr = model.run([(18, [sec, -1] + ops), (18, [sec, nsec - 1] + ops)])
-        relabel = lambda v: [x if k % 2 == 0 else (1 if x == 0 else x) for k, x in enumerate(v)]      # identity 0 = the initial level 1
-        free, full = relabel(pr[0]), relabel(pr[1])
-        ctx.cov["traces_validated_against_impl"] += 2
-        ok0, ok1 = jl[0] == free, jl[1] in (free, full)
-        ctx.count(("lockstep-mtparams", jl[1] == full, ok0 and ok1), nontrivial=True)
-        if not (ok0 and ok1):
-            report("lockstep", g, dict(model="MtParams.prun (size, level of every posted job)", predicted=dict(never_full=free, full_at_last_section=full),
-                                       observed=dict(big_output=jl[0], one_byte_output=jl[1])))
-        else:
-            n_ok += 2
     if not cases:
         return n_ok
     for (g, l, mode, endop, e1, e2, estab, regen, bmax, n1, n2, st2, nc2, nbw), r in zip(meta, model.run(cases)):
